@@ -7,15 +7,15 @@ Require Import UV.Gen.Consts UV.C04.Model UV.C04.Proofs UV.C04.ProofsLazy.
    interleaving with the recorder; unless the instant lies between the two size updates of a
    record with payload, the data file is made of whole records that form a prefix of the
    eager trace of `ops` *)
-Theorem killed_trace_is_prefix_of_execution single cap ops sched :
+Theorem killed_trace_is_prefix_of_execution setup single cap ops sched :
   wf_ops [] ops = true ->
   let recs := concat (snd (ops_run [] ops)) in
-  let s := run single cap sched (init recs) in
+  let s := run single cap sched (start setup recs) in
   in_window single s = false ->
   exists k, match_recs (firstn k (eager [] ops)) (file (finish s)) = true.
 Proof.
   intros Hwf recs s Hw.
-  destruct (prefix_outside_window single cap recs sched Hw) as [Hm [[rest Hr] _]]. fold s in Hm, Hr.
+  destruct (prefix_outside_window setup single cap recs sched Hw) as [Hm [[rest Hr] _]]. fold s in Hm, Hr.
   destruct (lazy_is_prefix_of_eager ops Hwf) as [rest' He]. fold recs in He.
   exists (length (done s)).
   assert (Hfn : firstn (length (done s)) (eager [] ops) = done s).
@@ -28,24 +28,24 @@ Qed.
 (* the crash handler ran to completion (the thread stored every record of `ops` and of the
    flush) before the process died: the file is the whole eager trace - every open call has its
    ENTRY record *)
-Theorem crashed_trace_is_complete single cap ops sched :
+Theorem crashed_trace_is_complete setup single cap ops sched :
   wf_ops [] ops = true ->
   let recs := concat (snd (ops_run [] ops)) ++ segv_flush (fst (ops_run [] ops)) in
-  let s := run single cap sched (init recs) in
+  let s := run single cap sched (start setup recs) in
   pc s = PIdle -> todo s = [] ->
   match_recs (eager [] ops) (file (finish s)) = true.
 Proof.
   intros Hwf recs s Hpc Ht.
-  pose proof (complete_run single cap recs sched Hpc Ht) as H. fold s in H.
+  pose proof (complete_run setup single cap recs sched Hpc Ht) as H. fold s in H.
   unfold recs in H at 1. rewrite (lazy_plus_flush_is_eager ops Hwf) in H. exact H.
 Qed.
 
 (* the code as it is: no guard *)
-Theorem killed_trace_now cap ops sched :
+Theorem killed_trace_now setup cap ops sched :
   wf_ops [] ops = true ->
-  let s := run true cap sched (init (concat (snd (ops_run [] ops)))) in
+  let s := run true cap sched (start setup (concat (snd (ops_run [] ops)))) in
   exists k, match_recs (firstn k (eager [] ops)) (file (finish s)) = true.
-Proof. intros Hwf s. apply (killed_trace_is_prefix_of_execution true cap ops sched Hwf). reflexivity. Qed.
+Proof. intros Hwf s. apply (killed_trace_is_prefix_of_execution setup true cap ops sched Hwf). reflexivity. Qed.
 
 (* non-vacuity: two nested calls with argument and return-value payloads, a 64-byte buffer (one
    or two records per buffer, so buffers are switched and re-used), recorder steps interleaved *)
@@ -60,4 +60,35 @@ Example nv_complete :
   let s := run true 48 nv_sched (init (concat (snd (ops_run [] nv_ops)) ++ segv_flush (fst (ops_run [] nv_ops)))) in
   pc s = PIdle /\ todo s = [] /\ in_window true s = false /\ length (bufs s) = 2 /\ length (file s) = 80 /\ shl s = [0]
   /\ match_recs (eager [] nv_ops) (file (finish s)) = true.
+Proof. vm_compute. repeat split; reflexivity. Qed.
+
+(* non-vacuity of the schedules with a closed pipe / mtd_dtor (finish trigger, signal trigger, thread end):
+   (1) finish trigger after three records: the thread is done, later producer steps change nothing, the
+       file holds exactly the three records although five were to be written;
+   (2) another thread closed the pipe: the thread fills its buffer, REC_END of the switch is lost, it goes
+       dark; the buffer that was current is still flushed at the end;
+   (3) a normal thread end sends REC_END: the recorder's ordinary catch-up writes everything *)
+Definition fin_recs : list rec := [w_r2; w_r1; w_r2; w_r2; w_r2].
+Example nv_finish_trigger :
+  let s := run true 48 (repeat LP 21 ++ [LDC] ++ repeat LP 20) (init fin_recs) in
+  pc s = PDark /\ done s = [w_r2; w_r1; w_r2] /\ match_recs (done s) (file (finish s)) = true
+  /\ length (file (finish s)) = 56.
+Proof. vm_compute. repeat split; reflexivity. Qed.
+Example nv_pipe_closed :
+  let s := run true 48 (repeat LP 9 ++ repeat LPC 30) (init fin_recs) in
+  pc s = PDark /\ done s = [w_r2; w_r1] /\ chan s = [MStart 0] /\ match_recs (done s) (file (finish s)) = true
+  /\ length (file (finish s)) = 40.
+Proof. vm_compute. repeat split; reflexivity. Qed.
+Example nv_thread_end :
+  let s := run true 4080 (repeat LP 30 ++ [LD; LR; LR; LW]) (init fin_recs) in
+  pc s = PDark /\ done s = fin_recs /\ shl s = [] /\ wl s = [] /\ match_recs fin_recs (file s) = true.
+Proof. vm_compute. repeat split; reflexivity. Qed.
+
+(* from before the thread's set-up: killed right after REC_START 0, before the buffer's flag is set - the
+   recorder skips the announced buffer; and a whole history from the set-up on *)
+Example nv_setup :
+  let s1 := run true 48 [LP] (init0 fin_recs) in
+  pc s1 = PPrepFlag /\ chan s1 = [MStart 0] /\ file (finish s1) = [] /\ shl (drain s1) = [0]
+  /\ let s := run true 48 (repeat LP 23 ++ [LDC]) (init0 fin_recs) in
+     done s = [w_r2; w_r1; w_r2] /\ match_recs (done s) (file (finish s)) = true.
 Proof. vm_compute. repeat split; reflexivity. Qed.
